@@ -6,6 +6,7 @@ import Pygom.Ops
 import Pygom.OpsIntegrate
 import Pygom.OpsParams
 import Pygom.OpsStoch
+import Pygom.OpsSens
 
 namespace Pygom
 open Lean (Json)
@@ -15,6 +16,7 @@ def handlers : List (String → Json → Option (Except String Json)) :=
   , handleIntegrate
   , handleParams
   , handleStoch
+  , handleSens
   ]
 
 def handle (j : Json) : Json :=
